@@ -15,7 +15,8 @@ def build(start4, dt4, n, model_dt4=None):
     from BPTK_Py import Model
     m = Model(starttime=start4 / 4.0, stoptime=(start4 + n * dt4) / 4.0, dt=(model_dt4 or dt4) / 4.0, name="sess")
     k = m.constant("k"); k.equation = 1.0
-    f = m.flow("f"); f.equation = k
+    r = m.converter("r"); r.equation = k * 1.0       # between the constant and the flow; never among the requested equations
+    f = m.flow("f"); f.equation = r
     s = m.stock("s"); s.initial_value = 0.0; s.equation = f
     u = m.stock("u"); u.initial_value = k; u.equation = f       # a stock whose initial value is the constant
     return m
@@ -249,7 +250,7 @@ def run(tier, replay_file=None):
     R = common.Run("C09", tier, "model_checking")
     quick = tier == "quick"
     rng = random.Random(common.seed())
-    specs = [(4, 4, 4), (0, 2, 5), (2, 4, 4), (1, 2, 4), (2, 1, 6)] + ([] if quick else [(0, 4, 6), (8, 1, 8), (4, 2, 3)])   # incl. starts that are not multiples of dt
+    specs = [(4, 4, 4), (0, 2, 5), (2, 4, 4), (1, 2, 4), (2, 1, 6), (-8, 4, 4), (-4, 2, 5)]      # (start, dt, steps) in quarters; two start before 0 + ([] if quick else [(0, 4, 6), (8, 1, 8), (4, 2, 3)])   # incl. starts that are not multiples of dt
     R.cov["states"], R.cov["transitions"] = 0, 0
     n_hist = 0
     for start4, dt4, n in specs:
